@@ -537,6 +537,31 @@ class LuaHarness(object):
         return {"cls": cls + "/called", "sample": self.witness(e.model(), None), "extra": extra}
 
 
+def registration_verdict(build):
+    """Every binding is reachable from Lua under the name the declaration gives it: a free function and a constructor in the
+    module table (the C++ name / the class name), a method in its class's table under the C++ name, the destructor as __gc."""
+    text = [t for n, t in build.files.items() if n.startswith("lua") and n.endswith((".cpp", ".c"))][0]
+    tables = {m.group(1): dict(re.findall(r'\{\s*"(\w+)",\s*(\w+)\s*\}', m.group(2)))
+              for m in re.finditer(r"(?s)static const (?:struct )?luaL_Reg (\w+)\s*\[\]\s*=\s*\{(.*?)\};", text)}
+    funcs = lua_functions(build)
+    for lname, ent in sorted(funcs.items()):
+        sig = ent["sigs"][0]
+        cls = ent["cls"]
+        if cls is None or sig.is_ctor:
+            want_table = [t for t in tables if t not in ["l_%s_Reg" % c.name for c in [e_["cls"] for e_ in funcs.values() if e_["cls"] is not None]]]
+            want_name = cls.name if cls is not None else sig.name
+        else:
+            want_table = ["l_%s_Reg" % cls.name]
+            want_name = "__gc" if sig.is_dtor else sig.name
+        got = [(t, n) for t in tables for n, f in tables[t].items() if f == lname]
+        if len(got) != 1:
+            return "binding %s is registered %d times %r" % (lname, len(got), got)
+        t, n = got[0]
+        if t not in want_table or n != want_name:
+            return "binding %s is registered as %s[%r], the declaration makes it %s[%r]" % (lname, t, n, "/".join(want_table), want_name)
+    return None
+
+
 def metatable_verdict(extras):
     """Every class has one metatable name, used by its constructor and demanded by its methods, and no two classes
     share a name (luaL_checkudata tells classes apart by that name only)."""
@@ -566,6 +591,8 @@ def make(**kw):
 def confirm(w):
     """Re-execute the harness pinned to the witness stack (the Lua runtime is not installed, so there
     is no native Lua to replay against); returns the violation text if it shows again."""
+    if w.get("kernel") == "registration":
+        return registration_verdict(lc.get_build(BUILD))
     if w.get("kernel") == "metatables":
         b = lc.get_build(BUILD)
         extras = []
@@ -620,6 +647,10 @@ def main():
     twin_ok = tw.stats.paths > 0 and tw.nviol > 0 and not tw.inconclusive
     if not twin_ok:
         rep.inconc("reachability twin failed: %r" % (tw.inconclusive[:1],))
+    reg_fail = registration_verdict(b)
+    if reg_fail:
+        path = checklib.write_replay(PID, "registration", {"kernel": "registration", "what": reg_fail})
+        rep.violation(path, reg_fail)
     mt_fail, mt_names = metatable_verdict(total.extras)
     if mt_fail:
         path = checklib.write_replay(PID, "metatables", {"kernel": "metatables", "what": mt_fail, "names": {c: sorted(n) for c, n in mt_names.items()}})
